@@ -171,6 +171,12 @@ def judge(case, x, y, rbx, rby, o):
                          "fresh one"}.get(
             rel, "objects holding identical values compare unequal")
         out.append((kind, what))
+    if rel == "copy" and whole == "diff":
+        # x == deepcopy(x) is part of the contract as it stands: a deep copy that holds other values than its original
+        # is reported whether or not the comparison notices (seed C12-15: a hand-written __deepcopy__ that forgets a
+        # container)
+        out.append(("copy-differs", "deepcopy(x) does not hold the constructor-visible values of x"
+                    + ("" if eq else " (and x == deepcopy(x) is False)")))
     if rel == "hist0" and eq and whole == "diff":
         out.append(("history-stale-equal", f"after {case.get('how')} the object holds other values than a freshly built "
                                            "one but still compares equal to it (comparison uses data memoised before)"))
